@@ -40,6 +40,7 @@ type Obligation struct {
 	Mode   string
 	Pos    string
 	nLines int
+	Group  string
 	nStart int // first line of the region (function entry or enclosing loop header) whose assumptions are visible
 	Guard  Term
 	Cond   Term
@@ -95,6 +96,7 @@ type VC struct {
 	warnings    []string
 
 	usedGlobals   map[*ssa.Global]bool
+	preExisting   map[string]bool
 	notes         map[string]bool
 	topFrame      *frame
 	topLocs       []locSpec
@@ -106,6 +108,8 @@ type VC struct {
 	needStrOf     bool
 	entryLines    int
 	regionStart   int
+	regionAncestors map[int][][2]int // region start line -> line ranges of the enclosing loop headers' assumptions
+	curGroup      string
 	noSlice       bool
 }
 
@@ -145,8 +149,10 @@ func (vc *VC) reset() {
 	vc.warnings = nil
 	vc.topFrame = nil
 	vc.regionStart = 0
+	vc.regionAncestors = map[int][][2]int{}
 	vc.entryLines = 0
 	vc.usedGlobals = map[*ssa.Global]bool{}
+	vc.preExisting = map[string]bool{}
 	vc.notes = map[string]bool{}
 	vc.topLocs = nil
 	vc.callsiteHits = map[string]int{}
@@ -185,8 +191,12 @@ func (vc *VC) assume(t Term) {
 // header do not see it (modular loop verification): marked with a trailing comment.
 // assumeHdr: a loop invariant assumed at its header; kept in later regions (it is guarded by
 // the header's own reachability boolean, which inner loops imply).
-func (vc *VC) assumeHdr(t Term) {
+func (vc *VC) assumeHdr(t Term, group string) {
 	if t.S == "true" {
+		return
+	}
+	if group != "" {
+		vc.emit("(assert " + t.S + ") ;hdr;g=" + group)
 		return
 	}
 	vc.emit("(assert " + t.S + ") ;hdr")
@@ -224,6 +234,13 @@ func (vc *VC) define(hint string, t Term) Term {
 		return t // atoms stay as they are
 	}
 	n := vc.freshName(hint)
+	if t.Sort == SInt && vc.inQuant == 0 {
+		// integer values are named by a constant with a defining equation rather than a macro: the
+		// solver then keeps index terms such as (+ off i) in the shape the quantifier patterns expect
+		vc.emit(fmt.Sprintf("(declare-const %s %s)", n, t.Sort))
+		vc.emit(fmt.Sprintf("(assert (= %s %s))", n, t.S))
+		return Term{n, t.Sort}
+	}
 	vc.emit(fmt.Sprintf("(define-fun %s () %s %s)", n, t.Sort, t.S))
 	return Term{n, t.Sort}
 }
@@ -281,18 +298,60 @@ func (vc *VC) script(nLines int, tail string) string {
 // before its region, and every line of its region (from the enclosing loop header on).
 // Assumptions made before the loop header are dropped: what the body needs must be in the invariant.
 func (vc *VC) scriptRegion(nStart, nLines int, tail string) string {
+	return vc.scriptRegionSliced(nStart, nLines, tail, "")
+}
+
+// scriptRegionGroup additionally drops the assumptions that belong to another proof group:
+// clauses may be tagged %group; an obligation of group G sees the untagged assumptions and those
+// of G only (fewer assumptions: always sound; it keeps unrelated quantified invariants out of the way).
+func (vc *VC) scriptRegionGroup(nStart, nLines int, tail string, group string) string {
+	s := vc.scriptRegionSliced(nStart, nLines, tail, "")
+	if group == "" || !strings.Contains(s, ";g=") {
+		return s // an untagged obligation sees every assumption
+	}
+	var b strings.Builder
+	for _, l := range strings.Split(s, "\n") {
+		if i := strings.LastIndex(l, ";g="); i >= 0 {
+			if g := strings.TrimSpace(l[i+3:]); g != group {
+				continue
+			}
+		}
+		b.WriteString(l)
+		b.WriteByte('\n')
+	}
+	return b.String()
+}
+
+func (vc *VC) scriptRegionSliced(nStart, nLines int, tail string, seed string) string {
 	if nStart <= vc.entryLines {
-		return vc.scriptSliced(nLines, tail, "", false)
+		return vc.scriptSliced(nLines, tail, seed, seed != "")
 	}
 	var keep []string
 	keep = append(keep, vc.lines[:vc.entryLines]...)
-	for _, l := range vc.lines[vc.entryLines:nStart] {
+	anc := vc.regionAncestors[nStart]
+	for i, l := range vc.lines[vc.entryLines:nStart] {
 		if strings.HasSuffix(l, ";path") {
 			continue
+		}
+		if strings.Contains(l, ";hdr") {
+			// header assumptions of loops that do not enclose this region are of no use here
+			ln := vc.entryLines + i
+			inAnc := false
+			for _, r := range anc {
+				if ln >= r[0] && ln < r[1] {
+					inAnc = true
+				}
+			}
+			if !inAnc {
+				continue
+			}
 		}
 		keep = append(keep, l)
 	}
 	keep = append(keep, vc.lines[nStart:nLines]...)
+	if seed != "" {
+		keep = vc.sliceLines(keep, seed)
+	}
 	return vc.scriptLines(keep, tail)
 }
 
@@ -515,8 +574,17 @@ func (vc *VC) load(st State, ref Term, t types.Type) Term {
 		name := vc.memName(ti)
 		cur, ent := st.get(vc, name), vc.entryTerm(name)
 		if cur.S != ent.S {
-			cond := And(App(SBool, "<", vc.rootOf(ref), vc.topFrame.entryAlloc), Not(vc.inLocs(ref, name, vc.topLocs)))
+			cond := Not(vc.inLocs(ref, name, vc.topLocs))
+			if !vc.preExistingRef(ref) {
+				cond = And(App(SBool, "<", vc.rootOf(ref), vc.topFrame.entryAlloc), cond)
+			}
 			vc.assumeOnce(Implies(cond, Eq(v, Select(ent, ref, ti.sort))))
+			if cond.S == "true" && (ti.kind == "ref" || ti.kind == "slice") {
+				vc.preExisting[v.S] = true
+			}
+		} else if ti.kind == "ref" || ti.kind == "slice" {
+			// a pointer found in the entry memory points to something that existed at entry
+			vc.preExisting[v.S] = true
 		}
 	}
 	if vc.inQuant == 0 {
@@ -611,6 +679,24 @@ func (vc *VC) memKeys(t types.Type, out map[string]bool) {
 	default:
 		out[vc.memName(ti)] = true
 	}
+}
+
+// preExistingRef: the cell is syntactically part of an object that existed at function entry
+// (reached from a parameter or from a pointer found in the entry memory).
+func (vc *VC) preExistingRef(ref Term) bool {
+	s := ref.S
+	for {
+		switch {
+		case strings.HasPrefix(s, "(fld "), strings.HasPrefix(s, "(elem "), strings.HasPrefix(s, "(sarr "):
+			s = firstSexp(s[strings.Index(s, " ")+1:])
+			continue
+		}
+		break
+	}
+	if strings.HasPrefix(s, "p_") || strings.HasPrefix(s, "fv_") {
+		return true
+	}
+	return vc.preExisting[s]
 }
 
 // rootOf gives the allocation id of the object a ref points into.
@@ -886,7 +972,7 @@ func (vc *VC) obligationScript(ob *Obligation, model bool) string {
 	if model {
 		tail.WriteString("(get-model)\n")
 	}
-	s := vc.scriptRegion(ob.nStart, ob.nLines, tail.String())
+	s := vc.scriptRegionGroup(ob.nStart, ob.nLines, tail.String(), ob.Group)
 	if model {
 		s = "(set-option :produce-models true)\n" + s
 	}
